@@ -44,8 +44,8 @@ tokTypes = {
     '&': ['eBitOp'],
     '^': ['eBitOp'],
     '~': ['eBitOp'],
-    'true': ['eBoolean'],
-    'false': ['eBoolean'],
+    'true': ['eBoolean', 'eVariable'],
+    'false': ['eBoolean', 'eVariable'],
     '{': ['eBracket'],
     '}': ['eBracket'],
     '<': ['eBracket', 'eComparisonOp'],
